@@ -36,12 +36,28 @@ std::set<unsigned char> control_bytes_in(const impl::Lexicon& lex)
    return s;
 }
 
+// Formatting states a client's stream may be in when it is handed to the printer (0: as constructed).  Whatever the state, the
+// printer leaves it as it found it; what the client writes afterwards comes out as it would have before.
+constexpr int n_presets = 6;
+inline void apply_preset(std::ostream& os, int preset)
+{
+   switch (preset) {
+   case 1: os.setf(std::ios_base::hex, std::ios_base::basefield); break;
+   case 2: os.setf(std::ios_base::oct, std::ios_base::basefield); break;
+   case 3: os.setf(std::ios_base::hex, std::ios_base::basefield); os.setf(std::ios_base::showbase | std::ios_base::uppercase); break;
+   case 4: os.setf(std::ios_base::showpos | std::ios_base::boolalpha | std::ios_base::showpoint); os.setf(std::ios_base::left, std::ios_base::adjustfield); os.setf(std::ios_base::scientific, std::ios_base::floatfield); break;
+   case 5: os.unsetf(std::ios_base::basefield); os.setf(std::ios_base::internal, std::ios_base::adjustfield); os.unsetf(std::ios_base::skipws); break;      // no base selected at all
+   default: break;
+   }
+}
+
 struct PrintCheck {
    CaseOut& out;
    std::string label;          // "<role>:<kind>"
    Role role;
    bool complete_item;         // a complete top-level declaration / statement: indentation must be restored
    std::set<unsigned char> allowed_ctrl;
+   int preset = 0;             // formatting state of the client's stream at entry (apply_preset)
    std::string outcome;
 
    // f prints through the Printer it is given
@@ -50,6 +66,8 @@ struct PrintCheck {
    {
       std::ostringstream os;
       os.fill('#'); os.precision(3);
+      apply_preset(os, preset);
+      if (preset) out.count("items_printed_to_a_stream_in_a_non_default_formatting_state");
       const auto flags0 = os.flags(); const auto fill0 = os.fill(); const auto prec0 = os.precision(); const auto width0 = os.width();
       Printer pp(lex, os);
       pp.print_locations = true;
@@ -77,8 +95,16 @@ struct PrintCheck {
       // (c) indentation
       if (complete_item && outcome == "completed" && pp.indent() != indent0)
          out.viol("indentation-not-restored:" + label, "after a complete top-level item the printer's indentation is " + std::to_string(pp.indent()) + ", it started at " + std::to_string(indent0));
-      // (d) numbers written afterwards through the same printer and stream are decimal
-      {
+      // (d') a stream that was not in its default state: what the client writes afterwards reads as it would have before
+      if (preset) {
+         std::ostringstream ref; ref.fill('#'); ref.precision(3); apply_preset(ref, preset);
+         ref << 255 << ' ' << 64u << ' ' << true << ' ' << 2.5;
+         const auto mark = os.str().size();
+         os << 255 << ' ' << 64u << ' ' << true << ' ' << 2.5;
+         if (os.str().substr(mark) != ref.str()) out.viol("client-output-formatted-differently-afterwards:" + label, "after printing, the client's own output through the same stream reads '" + CaseOut::clean(os.str().substr(mark)) + "', before printing it would have read '" + CaseOut::clean(ref.str()) + "'");
+      }
+      // (d) numbers written afterwards through the same printer and stream are decimal (stated for a stream handed over in its default state)
+      if (!preset) {
          const auto mark = os.str().size();
          auto* brk = lex.make_break();
          brk->src_locus.file = File_index { 7001 }; brk->src_locus.line = Line_number { 1234 }; brk->src_locus.column = Column_number { 89 };
@@ -131,6 +157,8 @@ void add_sweep_cases(std::vector<ForkCase>& cases, std::shared_ptr<SweepWorld> W
       }
    }
    cases.push_back({ "unit:sweep", [W](CaseOut& out) { PrintCheck pc { out, "unit:sweep", R_UNIT, true, W->ctrl }; pc.run(W->lex, [&](Printer& pp) { pp << W->unit; }); } });
+   for (int preset = 1; preset < n_presets; ++preset)
+      cases.push_back({ "unit:sweep:stream-preset-" + std::to_string(preset), [W, preset](CaseOut& out) { PrintCheck pc { out, "unit:sweep", R_UNIT, true, W->ctrl, preset }; pc.run(W->lex, [&](Printer& pp) { pp << W->unit; }); } });
 }
 
 void add_literal_cases(std::vector<ForkCase>& cases, Rng& rng, bool thorough)
@@ -331,7 +359,8 @@ void add_program_cases(std::vector<ForkCase>& cases, Rng& rng, bool thorough)
    const int n = thorough ? 1500 : 30;
    for (int k = 0; k < n; ++k) {
       const std::uint64_t seed = rng.next();
-      cases.push_back({ "program", [seed](CaseOut& out) {
+      const int preset = k % (n_presets + 2) < n_presets ? k % (n_presets + 2) : 0;
+      cases.push_back({ preset ? "program:stream-preset-" + std::to_string(preset) : std::string("program"), [seed, preset](CaseOut& out) {
          Rng r(seed);
          GenOptions o; o.size = 4 + int(r.below(20)); o.max_depth = 2 + int(r.below(8)); o.locations = r.chance(50); o.unsupported = r.chance(40); o.control_bytes = r.chance(40); o.unnamed_udts = r.chance(40);
          Prog P = generate_program(r, o);
@@ -341,17 +370,17 @@ void add_program_cases(std::vector<ForkCase>& cases, Rng& rng, bool thorough)
          int idx = 0;
          for (auto& d : unit.global_namespace().scope().elements()) {
             std::string label = std::string("decl:") + cat_name(d.category) + ":generated";
-            PrintCheck pc { out, label, R_DECL, true, ctrl };
+            PrintCheck pc { out, label, R_DECL, true, ctrl, preset };
             pc.run(lex, [&](Printer& pp) { pp << xpr_decl(d, true); });
             ++idx;
          }
          for (int t : P.top) {
             const Expr& e = *E.vals[std::size_t(t)].e;
             std::string label = std::string("stmt:") + cat_name(e.category) + ":generated";
-            PrintCheck pc { out, label, R_STMT, true, ctrl };
+            PrintCheck pc { out, label, R_STMT, true, ctrl, preset };
             pc.run(lex, [&](Printer& pp) { pp << xpr_stmt(e); });
          }
-         {  PrintCheck pc { out, "unit:generated", R_UNIT, true, ctrl }; pc.run(lex, [&](Printer& pp) { pp << unit; }); }
+         {  PrintCheck pc { out, "unit:generated", R_UNIT, true, ctrl, preset }; pc.run(lex, [&](Printer& pp) { pp << unit; }); }
          out.count("generated_programs"); out.count("generated_top_level_items", idx + (long long)P.top.size());
       } });
    }
@@ -390,6 +419,14 @@ static void number_cases(std::vector<ForkCase>& cases)
             }
          }
       }
+      for (int preset = 1; preset < n_presets; ++preset) {
+         std::ostringstream os; apply_preset(os, preset); const auto flags0 = os.flags();
+         Printer pp(L, os); pp.print_locations = true;
+         auto* brk = lex.make_break(); brk->src_locus.file = File_index { 7001 }; brk->src_locus.line = Line_number { 1234 }; brk->src_locus.column = Column_number { 89 };
+         pp << Decl_position { 255 } << Mapping_level { 64 } << xpr_stmt(*brk);
+         out.count("numbers_written_to_a_stream_in_a_non_default_formatting_state", 5);
+         if (os.flags() != flags0) out.viol("stream-flags-changed:numbers:stream-preset", "writing a position, a level and a location to a stream whose formatting state was not the default changed the stream's flags (before " + std::to_string((long long)flags0) + ", after " + std::to_string((long long)os.flags()) + ")");
+      }
       out.eval(0x6e756d62);
    };
    cases.push_back(std::move(fc));
@@ -401,7 +438,7 @@ static void body(Ctx& C)
           "and, for types, as type; literals over every single byte, control-byte pairs and random bytes; every delimiter; operator names of every shape; statement "
           "nestings to depth 200 over every nesting construct with handlers, else-branches and labels; generated programs with refused constructs, control bytes and "
           "unnamed types; each in a forked child on a 256 MiB stack; distinct = distinct (role, kind, outcome) triples");
-   C.assume("graphs are finite with nesting depth <= 200, so exhausting a 256 MiB stack means recursion unrelated to the graph; default stream flags (decimal) at entry");
+   C.assume("graphs are finite with nesting depth <= 200, so exhausting a 256 MiB stack means recursion unrelated to the graph; the decimal clause is judged on streams handed over in their default state; streams handed over in another formatting state (hex, oct, showbase/uppercase, showpos/boolalpha/scientific, no base) are only required to come back as they were");
    std::vector<ForkCase> cases;
    Rng rng(C.base_seed * 0x9E3779B97F4A7C15ull + 18);     // the SAME case list in every worker (the run's seed, not the worker's): workers share it by index
    // workers share the work by index
@@ -419,7 +456,7 @@ static void body(Ctx& C)
    C.count("cases", (long long)mine.size());
    auto st = run_cases_forked(C, mine, 120);
    (void)st;
-   for (auto k : { "outcome:completed", "outcome:refused", "probes", "literal_spellings", "delimiter_cases", "operator_name_cases", "nesting_cases", "generated_programs", "located_statements_printed", "cases_completed", "numbers_checked", "body_matrix_cases", "enclosure_matrix_cases" }) C.need(k);
+   for (auto k : { "outcome:completed", "outcome:refused", "probes", "literal_spellings", "delimiter_cases", "operator_name_cases", "nesting_cases", "generated_programs", "located_statements_printed", "cases_completed", "numbers_checked", "body_matrix_cases", "enclosure_matrix_cases", "items_printed_to_a_stream_in_a_non_default_formatting_state", "numbers_written_to_a_stream_in_a_non_default_formatting_state" }) C.need(k);
    C.sample(J().s("case", "expr:Demotion").s("what", "a sweep node of kind Demotion offered as xpr_expr; outcome must be completed or refused(logic_error)").str());
    C.sample(J().s("case", "literal:single-byte 0x01").s("what", "literal whose spelling is byte 1, then 255/64/F7001:1234:89 through the same printer").str());
    C.sample(J().s("case", "nesting:depth-200").s("what", "200 nested if/while/switch/for/labeled/try constructs printed as one statement; indentation restored").str());
